@@ -34,16 +34,16 @@ def poly_case(ck, c):
         return False
     try:
         a = p.area()
-        if abs(a - exp) > 1e-12 * 64:
+        if not (abs(a - exp) <= 1e-12 * 64):
             return bad('polygon', 'area() = %r, shoelace = %r' % (a, exp), exp, a)
-        if abs(p.reversed().area() + exp) > 1e-12 * 64:
+        if not (abs(p.reversed().area() + exp) <= 1e-12 * 64):
             return bad('reversed', 'reversed().area() = %r' % p.reversed().area(), -exp, p.reversed().area())
-        if abs(p.translated(3.5 - 2j).area() - exp) > 1e-10 * 64:
+        if not (abs(p.translated(3.5 - 2j).area() - exp) <= 1e-10 * 64):
             return bad('translated', 'translated area %r' % p.translated(3.5 - 2j).area(), exp, p.translated(3.5 - 2j).area())
-        if abs(p.scaled(2).area() - 4 * exp) > 1e-10 * 64 or abs(p.scaled(-1, 3).area() + 3 * exp) > 1e-10 * 64:
+        if not (abs(p.scaled(2).area() - 4 * exp) <= 1e-10 * 64) or not (abs(p.scaled(-1, 3).area() + 3 * exp) <= 1e-10 * 64):
             return bad('scaled', 'scaled(2) area %r, scaled(-1,3) area %r' % (p.scaled(2).area(), p.scaled(-1, 3).area()), [4 * exp, -3 * exp], [p.scaled(2).area(), p.scaled(-1, 3).area()])
         M = np.array([[1.0, 1.0, 0.0], [0.0, 1.0, 0.0], [0, 0, 1]])
-        if abs(sp.path.transform(p, M).area() - exp) > 1e-10 * 64:
+        if not (abs(sp.path.transform(p, M).area() - exp) <= 1e-10 * 64):
             return bad('sheared', 'area under a shear (det 1) %r' % sp.path.transform(p, M).area(), exp, sp.path.transform(p, M).area())
     except Exception as e:      # noqa
         return bad('raises-' + type(e).__name__, 'raised %r' % e, exp, repr(e))
@@ -111,12 +111,12 @@ def bez_cases(ck, bez):
             for what, q, e in (('translated', p.translated(3.5 - 2j), exp), ('translated far', p.translated(-700 + 900j), exp),
                                ('scaled(2)', p.scaled(2), 4 * exp), ('scaled(-1,3)', p.scaled(-1, 3), -3 * exp)):
                 v = q.area()
-                if abs(v - e) > 1e-9 * (abs(e) + 64) * (1e4 if 'far' in what else 1):
+                if not (abs(v - e) <= 1e-9 * (abs(e) + 64) * (1e4 if 'far' in what else 1)):
                     ck.disagree(key='Path.area/bezier-' + what.split('(')[0].replace(' ', '-'), site='svgpathtools/path.py:Path.area',
                                 what='closed Bezier path %r %s: area %r, expected %r' % (p, what, v, e), case={'path': b['path'], 'op': what},
                                 expected=e, observed=v, driver='bezier')
                     break
-        if isinstance(a, Exception) or abs(a - exp) > 1e-12 * 64 or abs(r + exp) > 1e-12 * 64:
+        if isinstance(a, Exception) or not (abs(a - exp) <= 1e-12 * 64) or not (abs(r + exp) <= 1e-12 * 64):
             ck.disagree(key='Path.area/bezier', site='svgpathtools/path.py:Path.area', what='closed Bezier path %r: area %r, reversed %r, exact %r' % (p, a, r, exp),
                         case={'path': b['path']}, expected=exp, observed=repr(a), driver='bezier')
 
@@ -137,7 +137,7 @@ def arc_cases(ck):
                 got = p.area(chord_length=chord)
             except Exception as e:      # noqa
                 got = e
-            if isinstance(got, Exception) or abs(got - exp) > bound or (got > 0) != sweep:
+            if isinstance(got, Exception) or not (abs(got - exp) <= bound) or (got > 0) != sweep:
                 ck.disagree(key='Path.area/arcs', site='svgpathtools/path.py:Path.area', what='ellipse (%s) sweep=%s: area %r, pi rx ry = %r (chord bound %g)' % (
                     (cx, cy, rx, ry, rot), sweep, got, exp, bound), case={'ellipse': [cx, cy, rx, ry, rot], 'sweep': sweep}, expected=exp, observed=repr(got), driver='arcs')
 
